@@ -218,7 +218,7 @@ pub fn run_c14(ctx: &mut Ctx) {
                 ops.push(Op::CloneFromSlice(d));
             }
             for k in [SrcKind::Owned, SrcKind::View, SrcKind::ViewMut] {
-                for rel in [SizeRel::Same, SizeRel::ColsPlus1, SizeRel::RowsPlus1, SizeRel::Transposed, SizeRel::Flat] {
+                for rel in [SizeRel::Same, SizeRel::ColsPlus1, SizeRel::RowsPlus1, SizeRel::RowsMinus1, SizeRel::ColsMinus1, SizeRel::Transposed, SizeRel::Flat] {
                     ops.push(Op::CopyFromToodee(k, rel));
                     ops.push(Op::CloneFromToodee(k, rel));
                 }
@@ -262,7 +262,7 @@ pub fn run_c14(ctx: &mut Ctx) {
                 ops.push(Op::CloneFromSlice(d));
             }
             for k in [SrcKind::Owned, SrcKind::View, SrcKind::ViewMut] {
-                for rel in [SizeRel::Same, SizeRel::ColsPlus1, SizeRel::Transposed] {
+                for rel in [SizeRel::Same, SizeRel::ColsPlus1, SizeRel::RowsMinus1, SizeRel::Transposed] {
                     ops.push(Op::CopyFromToodee(k, rel));
                     ops.push(Op::CloneFromToodee(k, rel));
                 }
